@@ -560,6 +560,11 @@ func main() {
 			}
 			addBurst(run, s0, alts)
 		}
+		// corpus: C15_stored_value_burst_refuted - a 4-byte burst over three checksum bytes and the first
+		// payload byte turns one valid value into another; Go and the model must both return data
+		if scls, s0 := goSerialize([]byte{1, 2, 3, 4, 5}, 0, -1, 1); scls == "ok" {
+			addBurst(run, s0, []jalt{{Pos: 2, Mask: []byte{251, 38, 99, 151}}, {Pos: 5, Mask: []byte{251, 38, 99, 151}}})
+		}
 		for i := 0; i < nCrc; i++ {
 			var data []byte
 			switch i % 5 {
